@@ -124,6 +124,16 @@ pub fn elf_type_name(raw: u32) -> &'static str {
     }
 }
 
+/// The documented discriminant of the class a raw type belongs to.
+pub fn elf_type_class(raw: u32) -> u32 {
+    match raw {
+        1..=11 => raw,
+        0x6000_0000..=0x6FFF_FFFF => 0x6000_0000,
+        0x7000_0000..=0x7FFF_FFFF => 0x7000_0000,
+        _ => 0,
+    }
+}
+
 pub fn elf_in_use(raw: u32) -> bool {
     elf_type_name(raw) != "Unused"
 }
@@ -372,7 +382,7 @@ pub fn expect_tag(exp: &mut Expected, p: &str, region: &[u8], it: &Item, kind: u
                         let q = format!("{p}.s{j}");
                         exp.is(q.clone(), Val::Ok);
                         exp.u(format!("{q}.raw_type"), ent.raw_type as u64);
-                        exp.is(format!("{q}.type"), Val::Txt(elf_type_name(ent.raw_type).into()));
+                        exp.u(format!("{q}.type"), elf_type_class(ent.raw_type) as u64);
                         exp.u(format!("{q}.flags"), ent.flags & 7);
                         exp.is(format!("{q}.allocated"), Val::B(ent.flags & 2 != 0));
                         exp.u(format!("{q}.addr"), ent.addr);
